@@ -1244,7 +1244,7 @@ def profile_climulti(rnd, n, thorough, out):
 def profile_clitmpl(rnd, n, thorough, out):
     """the external-engine command template: `{db} {host} {port} {user} {pass}` are replaced by the
     connection options, everything else reaches `bash -c` verbatim; observed as the argv of the engine"""
-    lits = ["--x", "a=b", "k:v", "plain", "A_1", "7", "x.y", "db", "host", "{", "}", "{}", "{dbx}", "{ db}", "{DB}", "{hosts}", "u,p"]
+    lits = ["--x", "a=b", "k:v", "plain", "A_1", "7", "x.y", "db", "host", "{", "}", "{}", "{dbx}", "{ db}", "{DB}", "{hosts}", "u+p"]   # (no commas: bash would brace-expand)
     phs = ["{db}", "{host}", "{port}", "{user}", "{pass}"]
     cwd = fresh_dir("tmpl")
     os.makedirs(os.path.join(cwd, "t"), exist_ok=True)
